@@ -32,3 +32,12 @@ package client
 //@   at-call MergeNoblock [offers-own-group] arg1 == a.query && arg2 == a.group
 //@   at-call InitSet [emptied-only-after-a-merge] merged0 && arg0 == a.group
 //@   ensures [merged-means-emptied] implies(isnil(result) && merged0, forallStr(k, !has(a.group.sets, k)))
+
+// ---- nothing unmerged is left behind (C06) -----------------------------------------------
+// g_flushed: ghost flag, set once this server's remaining data went into the
+// global group by a blocking merge.
+//@ func (*Aggregate).Flush
+//@   assigns a.group.sets, a.mutex, g_flushed, *a.globalGroup.GroupSet.sets, elems(a.globalGroup.GroupSet.sets), *a.globalGroup.semaphore
+//@   effect g_flushed == 1
+//@   at-call ).Merge [blocking-merge-of-own-group] arg1 == a.query && arg2 == a.group
+//@   ensures [emptied] forallStr(k, !has(a.group.sets, k))
